@@ -110,10 +110,11 @@ def run_merge(base, local, remote, args, name, validate=True, snapshot=False, ex
                     return [c.get("id") for c in nb.get("cells", []) if "id" in c]
 
                 def moved(d, side):
-                    """the cell with id d sits at another place among the cells base and that side have in common"""
+                    """the cells base and that side have in common come in another order on that side (one of them was
+                    moved: which of the cells around the move the differ reports as deleted + inserted is its choice)"""
                     bl, sl = idlist(base), idlist(side)
                     bc, sc = [i for i in bl if i in sl], [i for i in sl if i in bl]
-                    return d in bc and d in sc and bc.index(d) != sc.index(d)
+                    return d in bc and d in sc and bc != sc
                 bi, li, ri = idset(base), idset(local), idset(remote)
                 run["dup_classes"] = sorted({"same-id-introduced-on-both-sides" if (d not in bi and d in li and d in ri)
                                              else "base-cell-moved-on-one-side" if (d in bi and (moved(d, local) or moved(d, remote)))
